@@ -29,8 +29,8 @@ def spaces(tier):
         (("D1", False, None, None), ["reg"]),
         ((None, False, None, "HA"), ["step"]),
         (("T2", False, None, "HA"), ["mix"]),
-    ], deep=[((None, False, None, None), "step", 6), (("T2", True, None, None), "mix", 6)], pat_n=3, horizon=6.0,
-                plumb_n=7, plumb_gaps="ht2x", plumb_tfcs=[("T2", False, None, None), ("T2", True, None, None), ("T2", False, None, "HA"), ("H1", True, None, None)])
+    ], deep=[((None, False, None, None), "step", 6)], pat_n=3, horizon=6.0,
+                plumb_n=7, plumb_gaps="ht2", plumb_tfcs=[("T2", False, None, None), ("T2", True, None, None), ("T2", False, None, "HA"), ("H1", True, None, None)])
 
 
 def schedules(n, base_preload=0):
